@@ -8,11 +8,12 @@ CONFIG = {
         "pass `login`: the harness's own bookkeeping of which plaintext the stored hash was made from (tags accept/reject by effective DES key) and libc crypt(3) on the hash read back with PasswdQueryPasswd at the moment of each login - both independent of the model",
         "libc crypt(3) (libxcrypt, DES) through cgo: used only as the oracle P-hat for clause (a) and for CheckPasswd on well-formed hashes, never as proof",
         "hand-written textbook DES-crypt specification PttVerif/Model/C02Spec.lean (FIPS 46 IP, FP, E, P, PC-1, PC-2, S1-S8, shift schedule; crypt(3) salt perturbation, 25 iterations, base-64 packing): a wrong entry fails fcrypt_eq_crypt3 / a table theorem on the unchanged tree and disagrees with libc in the `spec` ops",
+        "translator gen_loginsave.go (go/ast + go/types): classifies the second argument of every pwcuEnd call in package ptt as reread / caller / unknown and lists the calls of ptt.Login; recognised shapes: `X, err = pwcuStart(...)`, `X, err := pwcuStart(...)`, a parameter, `X := param` / `var X = param`; anything else comes out as unknown:<why> and fails loginSave_rereads (the weaker alarm)",
         "math/rand: rand.Seed(k) makes the global source reproduce rand.New(rand.NewSource(k)) (checked at harness start); the model takes the drawn number as a parameter",
     ],
     "modelled": ["crypt.Fcrypt/cFcrypt", "crypt.desSetKey", "crypt.body/dEncrypt", "crypt.PermOp/HPermOp/c2l/l2c",
                  "cmbbs.GenPasswd", "cmbbs.CheckPasswd",
-                 "bbs.Login / bbs.CheckPasswd / bbs.ChangePasswd (as: hand the password bytes on unchanged)", "ptt.LoginQuery / ptt.Login (password decision only) / ptt.CheckPasswd / ptt.ChangePasswd, cmbbs.PasswdUpdatePasswd / PasswdQueryPasswd (as: the store user -> hash, Model/C02Login.lean)"],
+                 "bbs.Login / bbs.CheckPasswd / bbs.ChangePasswd (as: hand the password bytes on unchanged)", "ptt.Login as LoginQuery … userLogin/pwcuLoginSave/pwcuEnd (which record is written back: regenerated, Gen/LoginSave.lean; schedule point login.afterQuery)", "ptt.LoginQuery / ptt.Login (password decision only) / ptt.CheckPasswd / ptt.ChangePasswd, cmbbs.PasswdUpdatePasswd / PasswdQueryPasswd (as: the store user -> hash, Model/C02Login.lean)"],
     "assumptions": [
         "stored hashes in the login histories are arbitrary 14-byte values; where the stored hash has a byte >= 0x80 in a salt position Fcrypt panics (C02 fcrypt_panics_iff): the panic is recorded and compared with the model, counts as a refusal, and only an acceptance is judged (login:unverifiable-hash-accepted); bbs.Register is not driven by C02 (property C03 does)",
         "login histories: the users driven exist, have valid ids, pairwise distinct ignoring case, and are not 'guest' (whose login skips the password); session bookkeeping of ptt.Login is not modelled (property C03) - only a handful of full logins per run because the session table holds 31; one process, one caller at a time",
